@@ -38,6 +38,14 @@ class Spy:
             def send_lmi_constraint_to_solver(self, psd_counter, psd_matrix):
                 self.sent.append(('lmi', psd_matrix))
                 return super().send_lmi_constraint_to_solver(psd_counter, psd_matrix)
+
+            def prepare_heuristic(self, wc_value, tol_dimension_reduction):
+                self.heuristic_calls = getattr(self, 'heuristic_calls', []) + [('prepare', float(wc_value), tol_dimension_reduction)]
+                return super().prepare_heuristic(wc_value, tol_dimension_reduction)
+
+            def heuristic(self, weight):
+                self.heuristic_calls = getattr(self, 'heuristic_calls', []) + [('weight', np.array(weight, dtype=float))]
+                return super().heuristic(weight)
         self._old = pepmod.WRAPPERS['cvxpy']
         pepmod.WRAPPERS['cvxpy'] = SpyWrapper
         return self
